@@ -84,7 +84,9 @@ class StandardLengthType(DiagCodedType):
             bit_sz = bin(self.bit_mask).count("1")
             used_mask = (1 << bit_sz) - 1
 
-            return used_mask.to_bytes((bit_sz + 7) // 8, endianness)
+            # the mask must cover the whole object, not just the
+            # bytes which contain the condensed bits
+            return used_mask.to_bytes((max(self.bit_length, bit_sz) + 7) // 8, endianness)
 
         sz: int
         if isinstance(internal_value, BytesTypes):
